@@ -26,12 +26,10 @@ F = lambda n: f"{MOD}.MultitaskMultivariateNormal.{n}"
 
 
 def sizes(c, batch_rank):
-    n, t = c.int("n"), c.int("t")
-    c.assume(z3.And(n.t >= 1, t.t >= 1))
+    n, t = c.size("n"), c.size("t")
     bs = []
     for k in range(batch_rank):
-        b = c.int(f"b{k}")
-        c.assume(b.t >= 1)
+        b = c.size(f"b{k}")
         bs.append(b.t)
     return n.t, t.t, bs
 
